@@ -34,6 +34,8 @@ func runC11(c *Ctx, r *Report) {
 	c11Filter(c, r)
 	c11DoneOriginators(c, r)
 	c11FilterPerRecord(c, r)
+	r.Rule("R11.7", "the selecting verbs count for themselves: no function of head, tail, decimate, sample, bootstrap, shuffle, cat, uniq, group-by … reads the reader's Context.NR or Context.FNR other than for a message — head -n k plus tail -n +(k+1) must add up for every stream that reaches them, not only for one that comes straight from the reader (= R05.10 restricted to these verbs)")
+	checkNoReaderCounters(c, r, "R11.7", []string{"head.go", "tail.go", "decimate.go", "grep.go", "having_fields.go", "sample.go", "bootstrap.go", "shuffle.go", "tac.go", "group_by.go", "group_like.go", "uniq.go", "cat.go", "nothing.go", "skip_trivial_records.go"}, 30)
 }
 
 func c11ReadOnly(c *Ctx, r *Report) {
